@@ -8,6 +8,8 @@ import TickitModel.Lemmas.SimLoop
 import TickitModel.Lemmas.TickEqLemmas
 import TickitModel.Lemmas.RouterLemmas
 
+set_option linter.unusedSectionVars false
+
 namespace Tickit
 
 /-- well-formedness needed for transparency, beyond `Static.WF`: at every level the wiring is
@@ -19,6 +21,8 @@ structure Static.Valid (S : Static) : Prop extends Static.WF S where
   parent_unique : (akeys S.parent).Nodup
   /-- nothing is wired INTO `external` and nothing is wired FROM `expose` -/
   pseudo_dir : ∀ L ∈ S.levels, ∀ a p b q, L.wiring.Conn a p b q → b ≠ pseudoExternal ∧ a ≠ pseudoExpose
+  /-- the master scheduler (level name `""`) is not itself a component -/
+  master_fresh : alookup S.parent "" = none
 
 /-- the fuel given to `Static.resolve` is enough: one more unit changes nothing (so the
 function `S.resolve n` satisfies the recursion equations of `resolve` without fuel). -/
